@@ -63,9 +63,13 @@ val combine : 'a1 list -> 'a2 list -> ('a1 * 'a2) list
 
 val firstn : nat -> 'a1 list -> 'a1 list
 
+val skipn : nat -> 'a1 list -> 'a1 list
+
 val nodup : ('a1 -> 'a1 -> bool) -> 'a1 list -> 'a1 list
 
 val seq : nat -> nat -> nat list
+
+val repeat : 'a1 -> nat -> 'a1 list
 
 type positive =
 | XI of positive
@@ -383,6 +387,8 @@ val enc_key : key -> z list
 val enc_node : node -> z list
 
 val enc_result : ('a1 -> z list) -> 'a1 result -> z list
+
+val dec_key : key dec
 
 val bad_request : z list
 
@@ -1066,6 +1072,82 @@ val since_last_lf : str -> z -> z
 
 val col_of : str -> nat -> z
 
+val hex_digit_lower : z -> n
+
+val dumps_char : n -> str
+
+val dumps_body : str -> str
+
+val replace_bq : str -> str
+
+val replace_sq : str -> str
+
+val m_canonical_string : str -> str
+
+val digits_of_pos : nat -> z -> str -> str
+
+val repr_nat : z -> str
+
+val repr_int : z -> str
+
+val lt_ratio : z -> z -> z -> z -> bool
+
+val pow10 : z -> z * z
+
+val floor_log10 : z -> z -> z
+
+val round_sig : z -> z -> z -> z * z
+
+val shortest : nat -> z -> z -> z -> z -> z -> z * z
+
+val strip_zeros : nat -> z -> z -> z * z
+
+val zeros : z -> str
+
+val repr_pos_float : z -> z -> str
+
+val repr_float : num -> str
+
+val str_join : str -> str list -> str
+
+val op_str : cmpop -> str
+
+val lit_str : json -> str
+
+val opt_int_str : z option -> str -> str
+
+val paren : str -> str
+
+val is_cmp_or_not : expr -> bool
+
+val sel_str : sel -> str
+
+val expr_str : expr -> str
+
+val canon_str : expr -> z -> str
+
+val seg_str : seg -> str
+
+val m_str : query -> str
+
+val key_str : key -> str
+
+val m_path : key list -> str
+
+val hexl : z -> n
+
+val norm_char : n -> str
+
+val norm_name : str -> str
+
+val dec_digits : nat -> z -> str -> str
+
+val norm_index : z -> str
+
+val norm_seg : key -> str
+
+val norm_path : key list -> str
+
 val iota_json : z -> json list
 
 val enc_sel0 : (z * json) list -> z list
@@ -1099,5 +1181,15 @@ val op_errpos : z list -> z list
 val op_linecol : z list -> z list
 
 val op_env_find : z list -> z list
+
+val op_str_query : z list -> z list
+
+val op_path : z list -> z list
+
+val dec_num : num dec
+
+val op_repr : z list -> z list
+
+val op_norm_path : z list -> z list
 
 val dispatch : z list -> z list
